@@ -175,7 +175,16 @@ func (r *BaseOperationRepo) getDeletedOperations() (map[string]*types.Operation,
 }
 
 func (r *BaseOperationRepo) initJsonKey(key string) error {
-	err := r.state.Set(key, []byte("{}"))
+	// keep the operations that were stored before the node was restarted
+	bz, err := r.state.Get(key)
+	if err != nil {
+		return fmt.Errorf("failed to read state: %w", err)
+	}
+	if bz != nil {
+		return nil
+	}
+
+	err = r.state.Set(key, []byte("{}"))
 	if err != nil {
 		return fmt.Errorf("failed to init state: %w", err)
 	}
